@@ -42,6 +42,12 @@ import (
 	"verifharness/internal/cq"
 )
 
+// configuration of the "pacing" target
+const (
+	pacingRate     = 50_000_000
+	pacingInterval = time.Millisecond
+)
+
 const twccURI = "http://www.ietf.org/id/draft-holmer-rmcat-transport-wide-cc-extensions-01"
 
 // ---------------------------------------------------------------- targets
@@ -143,7 +149,7 @@ func targets() []target {
 			return f(fac, err)()
 		}},
 		{"pacing", func() (interceptor.Interceptor, error) {
-			return pacing.NewInterceptor(pacing.InitialRate(50_000_000), pacing.Interval(time.Millisecond), pacing.WithLoggerFactory(lf)).NewInterceptor("id")
+			return pacing.NewInterceptor(pacing.InitialRate(pacingRate), pacing.Interval(pacingInterval), pacing.WithLoggerFactory(lf)).NewInterceptor("id")
 		}},
 		{"gcc-leaky", func() (interceptor.Interceptor, error) {
 			fac, err := cc.NewInterceptor(func() (cc.BandwidthEstimator, error) {
@@ -174,6 +180,7 @@ type input struct {
 	BufLen int   `json:"buflen,omitempty"` // size of the buffer handed to Read
 	Pad    int   `json:"pad,omitempty"`    // rtp-write: 1 = padding bit with PaddingSize 0 (legacy form), 2 = PaddingSize 4
 	Fill   int   `json:"fill,omitempty"`   // rtp-write: value of the last payload byte (legacy padding count)
+	HS     int   `json:"hs,omitempty"`     // rtp-write: header SSRC: 0 the bound stream's, 1 its RTX SSRC, 2 its FEC SSRC, 3 never bound, 4 zero, 5 0xFFFFFFFF
 	K      int64 `json:"k"`
 }
 
@@ -440,6 +447,11 @@ func genInput(r *rand.Rand, k int64) input {
 			in.Pad = 2
 			in.Kind += "+padding"
 		}
+		// (drawn last: the inputs of earlier rounds keep their numbers) the header SSRC is the application's, not the binding's
+		if r.Intn(5) == 0 {
+			in.HS = 1 + r.Intn(5)
+			in.Kind += "+ssrc-not-bound"
+		}
 	}
 
 	return in
@@ -550,6 +562,18 @@ func (g *rig) apply(in input, r *rand.Rand) outcome {
 			}
 			if in.Shape%6 != 5 {
 				_ = h.SetExtension(1, []byte{byte(g.wseq >> 8), byte(g.wseq)})
+			}
+			switch in.HS {
+			case 1:
+				h.SSRC = 0x77
+			case 2:
+				h.SSRC = 0x99
+			case 3:
+				h.SSRC = 0xdead0000 + uint32(in.K&0xffff) //nolint:gosec
+			case 4:
+				h.SSRC = 0
+			case 5:
+				h.SSRC = 0xFFFFFFFF
 			}
 			payload := make([]byte, in.PayLen)
 			if in.PayLen > 0 {
@@ -780,6 +804,8 @@ func main() {
 	sz := &cq.Set{Name: "c02size", Import: "IV.Check.C02Check", CaseType: "size_case", Checks: []string{"size_mismatches", "size_spec_failures"}}
 	hs := &cq.Set{Name: "c02hist", Import: "IV.Check.C02Check", CaseType: "hist_case", Checks: []string{"hist_spec_failures"}}
 	rs := &cq.Set{Name: "c02rc", Import: "IV.Check.C02Check", CaseType: "rc_case", Checks: []string{"rc_mismatches", "rc_spec_failures"}}
+	ls := &cq.Set{Name: "c02life", Import: "IV.Check.C02Check", CaseType: "life_case", Checks: []string{"life_spec_failures"}}
+	ns := &cq.Set{Name: "c02np", Import: "IV.Check.C02Check", CaseType: "np_case", Checks: []string{"np_mismatches", "np_spec_failures"}}
 	n := int64(o.Scale(20000, 400000))
 	seed := o.Seed
 	ts := targets()
@@ -789,6 +815,8 @@ func main() {
 			fuzzCase
 			Hist *histScn `json:"hist"`
 			RC   *rcScn   `json:"rc"`
+			Life *lifeScn `json:"life"`
+			NP   *npScn   `json:"np"`
 		}
 		set := cq.LoadReplay(o.Replay, &c)
 		switch {
@@ -796,6 +824,10 @@ func main() {
 			only, ts = &workItem{Hist: c.Hist}, nil
 		case c.RC != nil:
 			only, ts = &workItem{RC: stripRC(c.RC)}, nil
+		case c.Life != nil:
+			only, ts = &workItem{Life: stripLife(c.Life)}, nil
+		case c.NP != nil:
+			only, ts = &workItem{NP: stripNP(c.NP)}, nil
 		case set == "c02size":
 			sizeCases(sz, o.Rand())
 		default:
@@ -870,23 +902,37 @@ func main() {
 		"distinct_nontrivial_inputs": distinctTotal + len(sz.Cases)}
 	if o.Replay == "" || only != nil {
 		// after the byte-level fuzz (whose workers keep every core busy): the scenarios are paced in real time
-		hfails, hextra := histSets(o, self, hs, rs, only)
-		fails = append(fails, hfails...)
-		for k, v := range hextra {
+		// round 4 first (no real-time pacing in there), then the paced feedback histories
+		lfails, lextra := lifeSets(o, self, ls, ns, only)
+		fails = append(fails, lfails...)
+		for k, v := range lextra {
 			extra[k] = v
+		}
+		if only == nil || only.Hist != nil || only.RC != nil {
+			hfails, hextra := histSets(o, self, hs, rs, only)
+			fails = append(fails, hfails...)
+			for k, v := range hextra {
+				extra[k] = v
+			}
 		}
 	}
 	cq.Write(o, "fuzz: per interceptor (17 configurations) one long-lived instance fed a seeded stream of inputs over its three paths "+
 		"(incoming RTP bytes, incoming RTCP bytes, outgoing RTP of any size/shape): random bytes, valid, mutated, X-bit on 12 bytes, small read buffers, "+
-		"TWCC with run length beyond the status count / fewer deltas than symbols, structured RFC 8888 blocks, payloads 0/1460/1461/huge; each followed by a "+
+		"TWCC with run length beyond the status count / fewer deltas than symbols, structured RFC 8888 blocks, payloads 0/1460/1461/huge, outgoing header SSRC not the bound stream's (RTX / FEC / never bound / 0 / 0xFFFFFFFF); each followed by a "+
 		"well-formed probe; panics (caller or background goroutine, via worker processes), hangs, n_out > n_in and failing probes are failures; "+
 		"one case per target, non-trivial = at least 10 inputs; size: length-accounting cores compared with the Coq model; "+
 		"hist: well-formed stateful congestion-control histories (cc interceptor with both pacers, rtpfb; TWCC and RFC 8888): packets paced in real time, "+
 		"feedback whose receive deltas follow an over-use / under-use / normal / alternating / burst / loss / re-ordering / duplicate pattern relative to the "+
 		"measured send times, then Read, Write, GetTargetBitrate, GetStats, Close, each under a watchdog; non-trivial = at least 6 calls; "+
 		"rc: call histories on the rate controller of a real SendSideBWE (every (state, usage) pair exhaustively to depth 2, random longer ones) "+
-		"compared with Model/RateCtlLock.v, non-trivial = at least 3 calls",
-		[]*cq.Set{fz, sz, hs, rs}, extra, fails)
+		"compared with Model/RateCtlLock.v, non-trivial = at least 3 calls; "+
+		"life: stream life-cycle histories on all 17 configurations (several local streams; outgoing packets whose header SSRC is the stream's own, another "+
+		"stream's, the RTX / FEC SSRC, of an unbound stream, never bound, 0, 0xFFFFFFFF; foreign payload types, header shapes, payload sizes; writes on the writer of "+
+		"an unbound stream; Bind / Unbind in between; finally a well-formed packet on every bound stream, Unbind, Close), every call under a watchdog, a well-formed "+
+		"packet must be accepted and reach a next writer; non-trivial = at least one inconsistent and one well-formed packet; "+
+		"np: call histories on a real gcc.NoOpPacer (directly / through SendSideBWE / through the cc interceptor: every kind of next call after one packet of "+
+		"every SSRC class, double add / remove, random longer ones) compared with Model/StreamTableLock.v, non-trivial = at least 3 calls",
+		[]*cq.Set{fz, sz, hs, rs, ls, ns}, extra, fails)
 	_ = errors.New
 }
 
